@@ -19,12 +19,17 @@ LEVEL = 'exploration'
 _state = {}
 
 
-def _init_worker():
+def warm_parent():
+    """Load every library module the PyProg header imports, once, in the parent: workers copy this warm cache."""
     from mc.tranp.session import Session
-    s = Session({'__warm__': 'x: int = 0\n'})
-    s.load('__warm__')
-    _state['warm'] = True
-    _state['wd'] = tempfile.mkdtemp(prefix='c01-')
+    Session({'__warm__': pyprog.HEADER + 'x: int = 0\n'}).load('__warm__')
+
+
+def _init_worker():
+    from mc.tranp.session import ensure_workdir
+    wd = os.path.join(ensure_workdir(), 'cpp')
+    os.makedirs(wd, exist_ok=True)
+    _state['wd'] = wd
 
 
 def transpile(source: str, name='prog'):
@@ -161,10 +166,8 @@ def run(ctx):
     progs = list(pyprog.programs(ctx.quick))
     nfun = sum(len(p.functions) for p in progs)
     ctx.log(f'{len(progs)} modules, {nfun} entry functions')
-    try:
-        results = pool.pmap(worker, [p.to_json() for p in progs], workers=ctx.workers, init=_init_worker, rotate=ctx.seed)
-    finally:
-        _cleanup_worker_dirs()
+    warm_parent()
+    results = pool.pmap(worker, [p.to_json() for p in progs], workers=ctx.workers, init=_init_worker, rotate=ctx.seed)
     tot = {'functions': 0, 'calls': 0, 'compared': 0, 'out_of_subset': 0, 'outcomes': 0, 'cpp_failed': 0, 'rejected': 0}
     all_viol = []
     for r in results:
@@ -222,9 +225,7 @@ def pyexprs():
 
 
 def replay(ctx, data):
+    warm_parent()
     _init_worker()
-    try:
-        r = judge_program(pyprog.Program.from_json(data['program']))
-        ctx.merge(r['viol'])
-    finally:
-        shutil.rmtree(_state['wd'], ignore_errors=True)
+    r = judge_program(pyprog.Program.from_json(data['program']))
+    ctx.merge(attribute_minimal(r['viol']))
